@@ -748,7 +748,7 @@ impl Check for C08Check {
         }
     }
     fn rule(&self) -> &'static str {
-        "case = (fault kind in {budget point, value fault per site, driver read error, driver write error at publish, retain save error, scripted simulation fault, watchdog trip}, fault cycle 0..3, fault policy, watchdog action, safe-state map of 0-5 non-overlapping %QX/B/W/D/L entries incl. ones over bound outputs and beyond the image, 1-3 drivers, subset of drivers failing on the safe-state delivery, post-fault history of cycles/second fault/restart); budget cases with k=null enumerate EVERY budget point (statement entry / loop iteration at any call depth) of the fault cycle; later additions: driver health reports, debugger writes queued while halted, the real ResourceRunner thread (every 9th case), and a second injected fault after restart / clear_fault (latch, safe image, refusal checked again); distinct non-trivial = distinct (kind, policy or action, budget point class, driver count, safe map size, failing set) where the fault fired"
+        "case = (fault kind in {budget point, value fault per site, driver read error, driver write error at publish, retain save error, scripted simulation fault, watchdog trip}, fault cycle 0..3, fault policy, watchdog action, safe-state map of 0-5 non-overlapping %QX/B/W/D/L entries incl. ones over bound outputs and beyond the image, 1-3 drivers, subset of drivers failing on the safe-state delivery, post-fault history of cycles/second fault/restart); budget cases with k=null enumerate EVERY budget point (statement entry / loop iteration at any call depth) of the fault cycle; later additions: driver health reports, debugger writes queued while halted, the real ResourceRunner thread (every 9th case), and a second injected fault after restart / clear_fault (latch, safe image, refusal checked again); a driver call that failed while the cycle returned Ok is a violation; distinct non-trivial = distinct (kind, policy or action, budget point class, driver count, safe map size, failing set) where the fault fired"
     }
     fn assumptions(&self) -> Vec<&'static str> {
         vec![
